@@ -16,7 +16,7 @@ use refchess::Pos;
 use serde_json::{json, Value};
 use std::time::Duration;
 
-pub const RULE: &str = "Layer A (in-process, model-based): op lists of 1..12 ops over one engine — NewGame, Resume (the position command that was current before the last ucinewgame, sent again, continued by 0..2 plies), SetPos (position command with FEN and move list; small positions, mates and stalemates included), Play(k plies of the same game), Search{depth 1..4, budget None | Nodes(k)} where k ranges over 0..2x the node count of the previous completed search (expiry before the first node, inside depth 1, between iterations, inside the last iteration; Nodes(0) is the image of 'movetime 0' / a clock at or below the reserve). Invariant after every Search: the returned move is a reference-legal move of the CURRENT position iff one exists, and none iff there is none. Layer B (black-box): scripts of ucinewgame?, 1..5 rounds of position + go (depth 1..3 pre-screened; movetime in {0,1,3,10,40}; clock sets wtime,btime 0..12000 with increments in any order, on both sides of the 5 s reserve) + isready; between consecutive readyok barriers exactly one line starts with 'bestmove', its move is legal in the position last set, or 0000 iff that position has no legal move. Non-trivial = a search on a position with >=2 legal moves that follows >=1 earlier search in the same engine/process or runs under a budget that expires before the requested depth completes; distinct by (history of ops / script text).";
+pub const RULE: &str = "Layer A (in-process, model-based): op lists of 1..12 ops over one engine — NewGame, Resume (the position command that was current before the last ucinewgame, sent again, continued by 0..2 plies), SetPos (position command with FEN and move list; small positions, mates and stalemates included), Play(k plies of the same game, or one out-and-back cycle of reversible moves after which the same placement stands without its en-passant right), Search{depth 1..4, budget None | Nodes(k)} where k ranges over 0..2x the node count of the previous completed search (expiry before the first node, inside depth 1, between iterations, inside the last iteration; Nodes(0) is the image of 'movetime 0' / a clock at or below the reserve). Invariant after every Search: the returned move is a reference-legal move of the CURRENT position iff one exists, and none iff there is none. Layer B (black-box): scripts of ucinewgame?, 1..5 rounds of position + go (depth 1..3 pre-screened; movetime in {0,1,3,10,40}; clock sets wtime,btime 0..12000 with increments in any order, on both sides of the 5 s reserve) + isready; between consecutive readyok barriers exactly one line starts with 'bestmove', its move is legal in the position last set, or 0000 iff that position has no legal move. Non-trivial = a search on a position with >=2 legal moves that follows >=1 earlier search in the same engine/process or runs under a budget that expires before the requested depth completes; distinct by (history of ops / script text).";
 
 #[derive(Debug, Clone)]
 enum Op {
@@ -83,7 +83,8 @@ fn part_a(bytes: &[u8], stats: &mut Stats) -> Verdict {
                     Op::SetPos(c.text, c.expected)
                 }
             }
-            2 => Op::Play(1 + s.below(4)),
+            // 1000 = one out-and-back cycle: the same placement comes back (without its ep right)
+            2 => Op::Play(if s.chance(25) { 1000 } else { 1 + s.below(4) }),
             _ => {
                 let depth = 1 + s.below(4) as u8;
                 let budget = if s.chance(65) {
@@ -142,7 +143,19 @@ fn part_a(bytes: &[u8], stats: &mut Stats) -> Verdict {
                 // the Play op was executed with the moves chosen below on the previous turn of the
                 // loop; choose the moves first, then re-send (handled by executing again)
                 let mut added = Vec::new();
-                for _ in 0..*k {
+                let mut k = *k;
+                if k == 1000 {
+                    k = 1;
+                    if let Some(cyc) = crate::props::c09::one_cycle(&mut s, &cur) {
+                        for m in cyc {
+                            cur = cur.make(m);
+                            added.push(m.uci());
+                        }
+                        k = 0;
+                        stats.class("A_out_and_back_cycle_played");
+                    }
+                }
+                for _ in 0..k {
                     let legal = cur.legal_moves();
                     let Some(m) = gen::choose_move(&mut s, &cur, &legal) else { break };
                     cur = cur.make(m);
